@@ -295,6 +295,73 @@ fn timeout_no_effect_body() -> vsched::Body {
 
 const S_KINDS: &[PointKind] = &[PointKind::Atomic, PointKind::Channel, PointKind::Lock, PointKind::Map, PointKind::Notify];
 
+/// "exit cleanup runs once": while A is inside post_stop (its name is free again), a successor takes the
+/// name and joins a group; A's remaining exit steps must not touch what now belongs to the successor.
+fn once_body(cause: Cause) -> vsched::Body {
+    Arc::new(move || {
+        Box::pin(async move {
+            let log = Log::default();
+            let prog = Prog { post_stop: vec![Step::Yield, Step::Tick, Step::SleepMs(2), Step::Yield], ..Default::default() };
+            let (a, ah) = Actor::spawn(Some("A".into()), Probe, args("A", prog, &log)).await.expect("A");
+            ractor::pg::join("g".into(), vec![a.get_cell()]);
+            let a2 = a.clone();
+            let closer = vsched::spawn("closer", async move {
+                match cause {
+                    Cause::Kill => a2.kill(),
+                    Cause::Drain => {
+                        let _ = a2.drain();
+                    }
+                    _ => a2.stop(None),
+                }
+                let _ = a2.wait(None).await;
+                vsched::ret_stamp()
+            });
+            let log2 = log.clone();
+            let successor = vsched::spawn("successor", async move {
+                // take the name as soon as it is free
+                for _ in 0..40 {
+                    match Actor::spawn(Some("A".into()), Probe, args("B", Prog::default(), &log2)).await {
+                        Ok((b, bh)) => {
+                            ractor::pg::join("g".into(), vec![b.get_cell()]);
+                            return Some((b, bh, vsched::ret_stamp()));
+                        }
+                        Err(_) => vsched::sleep(Duration::from_millis(1)).await,
+                    }
+                }
+                None
+            });
+            let wait_ret = closer.await;
+            let succ = successor.await.flatten();
+            let _ = ah.await;
+            vsched::quiesce_time();
+            let mut bad = Vec::new();
+            let key;
+            match succ {
+                Some((b, bh, took_at)) => {
+                    let reg = ractor::registry::where_is("A".to_string()).map(|c| c.get_id());
+                    if reg != Some(b.get_id()) {
+                        bad.push(format!("the successor took the name (before A's wait returned: {}) but where_is now returns {reg:?}: A's exit cleanup ran again and removed the successor's registration", wait_ret.is_some_and(|w| took_at < w)));
+                    }
+                    if !ractor::pg::get_members(&"g".to_string()).iter().any(|c| c.get_id() == b.get_id()) {
+                        bad.push("the successor is no longer a member of the group it joined".into());
+                    }
+                    if ractor::pg::get_members(&"g".to_string()).iter().any(|c| c.get_id() == a.get_id()) {
+                        bad.push("the stopped actor is still a group member".into());
+                    }
+                    key = format!("took-before-wait={}", wait_ret.is_some_and(|w| took_at < w));
+                    b.stop(None);
+                    let _ = bh.await;
+                }
+                None => {
+                    bad.push("the name never became free for a successor".into());
+                    key = "never".into();
+                }
+            }
+            Outcome { key, violations: bad }
+        })
+    })
+}
+
 pub fn plan(tier: &str) -> Plan {
     let thorough = tier == "thorough";
     let filter: vsched::Filter = Arc::new(|k, _l, t| {
@@ -316,11 +383,14 @@ pub fn plan(tier: &str) -> Plan {
     }
     let t_cfg = ExecCfg::default();
     units.push(Unit::explore(Job::new("timeout/exact", t_cfg.clone(), Some(bound), timeout_body())));
+    for cause in [Cause::Stop, Cause::Kill, Cause::Drain] {
+        units.push(Unit::explore_split(Job::new(format!("cleanup-once/{cause:?}"), cfg.clone(), Some(bound), once_body(cause)), 4));
+    }
     units.push(Unit::explore(Job::new("timeout/no-effect", t_cfg.clone(), Some(bound + 1), timeout_no_effect_body())));
     Plan {
         property: "C06",
         units,
-        rule: "actor A (named, pg member, pg monitor, one child, supervised) exits by stop/kill/drain/Err/panic/task abort while three waiters (parked before, concurrent, after) use wait / *_and_wait / the join handle; deviation-bounded DFS with a decision point before every atomic, lock, map, notify and channel operation of the waiters and of A's own task; the oracle snapshots status, registry, pg, tree links at the moment each wait returns and checks the supervisor's log against markers sent by the waiters; a wait that never returns is reported as a hang by the scheduler; non-trivial = execution with >= 1 branching decision".into(),
+        rule: "actor A (named, pg member, pg monitor, one child, supervised) exits by stop/kill/drain/Err/panic/task abort while three waiters (parked before, concurrent, after) use wait / *_and_wait / the join handle; deviation-bounded DFS with a decision point before every atomic, lock, map, notify and channel operation of the waiters and of A's own task; the oracle snapshots status, registry, pg, tree links at the moment each wait returns and checks the supervisor's log against markers sent by the waiters; a wait that never returns is reported as a hang by the scheduler; cleanup-once: a successor takes the name and joins a group while A is inside post_stop and must keep both after A finished; non-trivial = execution with >= 1 branching decision".into(),
         assumptions: vec![
             "sequential consistency; tokio Notify / channel operations are atomic steps".into(),
             "whole-map DashMap operations (remove, iter) are atomic with respect to guarded accesses".into(),
